@@ -370,6 +370,35 @@ def run(ctx: Ctx) -> None:
                             if isinstance(par, (ast.Subscript, ast.Compare, ast.Attribute)):
                                 memo.append(f"{f.loc(n)}: module-level mapping `{name}` is consulted in {f.qname}: a digest memo keyed by value identifies equal values of different type "
                                             "and makes a signature depend on what was hashed earlier in the process")
+    # local mappings of the hasher (or of the function its closures live in) keyed by the element being hashed
+    def _is_map(v: Optional[ast.AST]) -> bool:
+        return isinstance(v, ast.Dict) or (isinstance(v, ast.Call) and unparse(v.func).split(".")[-1] in ("dict", "OrderedDict", "defaultdict", "WeakValueDictionary"))
+    for f in reach:
+        maps = set()
+        for n in ast.walk(f.node):
+            if isinstance(n, ast.Assign) and _is_map(n.value):
+                maps.update(t.id for t in n.targets if isinstance(t, ast.Name))
+            elif isinstance(n, ast.AnnAssign) and isinstance(n.target, ast.Name) and _is_map(n.value):
+                maps.add(n.target.id)
+        if not maps:
+            continue
+        for g in ast.walk(f.node):
+            if not isinstance(g, (ast.FunctionDef, ast.Lambda)):
+                continue
+            params = {a.arg for a in g.args.args + g.args.posonlyargs + g.args.kwonlyargs}
+            for n in ast.walk(g):
+                key = None
+                if isinstance(n, ast.Subscript) and isinstance(n.value, ast.Name) and n.value.id in maps and isinstance(n.slice, ast.Name):
+                    key, m_ = n.slice.id, n.value.id
+                elif isinstance(n, ast.Compare) and len(n.ops) == 1 and isinstance(n.ops[0], (ast.In, ast.NotIn)) and isinstance(n.left, ast.Name) \
+                        and isinstance(n.comparators[0], ast.Name) and n.comparators[0].id in maps:
+                    key, m_ = n.left.id, n.comparators[0].id
+                elif isinstance(n, ast.Call) and isinstance(n.func, ast.Attribute) and n.func.attr in ("get", "setdefault", "pop") and isinstance(n.func.value, ast.Name) \
+                        and n.func.value.id in maps and n.args and isinstance(n.args[0], ast.Name):
+                    key, m_ = n.args[0].id, n.func.value.id
+                if key is not None and key in params and (f is outer or f in fam or any(g_.qname.startswith(f.qname + ".") for g_ in fam)):
+                    memo.append(f"{f.loc(n)}: local mapping `{m_}` of {f.qname} is keyed by the value being hashed (`{key}`): the key identifies values that compare equal "
+                                "(1 == 1.0 == True, 0.0 == -0.0): dds_hash([1, 1.0]) == dds_hash([1, 1])")
     if nond:
         rep.bad("C05.R2", mod.name, "no nondeterminism source in the value hasher", nond[0].split(":")[0], nond, "nondet", what="the value hash depends on the process / environment")
     else:
